@@ -84,3 +84,22 @@ func zzH_C04_telnet() {
 	zzAssert(gotUser == user && gotPass == pass, "the login event carries the user name and password sent")
 	zzAssert(len(cmds) == 1 && cmds[0] == cmd, "the command line is reported exactly once with the text sent")
 }
+
+// C01+C09/bytes-telnet: any N bytes followed by the client going away: the handler returns
+// (every loop bounded by the input), nothing panics outside the per-connection recover, no
+// goroutine is left.
+func zzH_C09_bytes_telnet() {
+	n := zzLen(0, zzParam("N", 3))
+	data := zzBytes(n)
+	for i := 0; i < n; i++ {
+		zzAssume(data[i] < 0x80) // ASCII: case mapping / rune decoding of symbolic non-ASCII bytes is beyond the solver budget
+	}
+	s := &telnetService{Prompt: "$ ", MOTD: "hi"}
+	s.SetChannel(&zzTRec{})
+	base := zzLive()
+	zzUnwindIn("telnet", 4*n+24, true)
+	zzDidPanic(func() { s.Handle(context.Background(), &zzTCut{data: data, cut: n}) })
+	zzUnwindIn("", 0, false)
+	zzQuiesce()
+	zzAssert(zzLive() == base, "no goroutine created on the connection's behalf outlives the handler")
+}
